@@ -666,6 +666,11 @@ PROPS["C20"]["drivers"].append({"name": "c05l2", "n_quick": 28, "n_thorough": 60
 PROPS["C20"]["rule"] += (" End to end (c05l2, see C05): a real connection with caller threads, the server's Connection.Close "
     "(and six other ways to die) landing while calls and close() are in flight; close() must report the server's close.")
 PROPS["C20"]["trusted_base"] = PROPS["C20"]["trusted_base"] + L2_TRUSTED
+# the frames the I/O thread writes on its own account are frames too (seed C01f): the c07 scenarios under C01
+PROPS["C01"]["check_mods"].append("C07")
+PROPS["C01"]["drivers"].append({"name": "c07", "n_quick": 150, "n_thorough": 4000, "timeout": 3000})
+PROPS["C01"]["rule"] += (" What the I/O thread writes on its own account (c07, see C07): the Connection.Close of a client "
+    "exception for offending frames whose rendering is long and non-ASCII - a well-formed method frame, whatever the text.")
 # a silent server while the connection is closing (seed C05d): the heartbeat scenarios of the c05 generator
 PROPS["C17"]["check_mods"].append("C05")
 PROPS["C17"]["drivers"].append({"name": "c05core", "n_quick": 160, "n_thorough": 2000, "timeout": 3000})
